@@ -653,8 +653,8 @@ def check_app(case):
 
 
 PARTS = [
-    Part("machine", check_machine, {"quick": 1600, "thorough": 30000}, machine=make_machine, kind="stateful", steps=30),
-    Part("earlystop", check_early, {"quick": 12000, "thorough": 300000}, strategy=st_early),
-    Part("power", check_power, {"quick": 1500, "thorough": 30000}, strategy=st_power),
-    Part("apps", check_app, {"quick": 400, "thorough": 6000}, strategy=st_app, shrink={"quick": False, "thorough": True}),
+    Part("machine", check_machine, {"quick": 3200, "thorough": 30000}, machine=make_machine, kind="stateful", steps=30),
+    Part("earlystop", check_early, {"quick": 24000, "thorough": 300000}, strategy=st_early),
+    Part("power", check_power, {"quick": 3000, "thorough": 30000}, strategy=st_power),
+    Part("apps", check_app, {"quick": 800, "thorough": 6000}, strategy=st_app, shrink={"quick": False, "thorough": True}),
 ]
